@@ -20,6 +20,10 @@ class HarnessError(SystemExit):
     a loop callback is only logged and the loop goes on)"""
 
 
+class TooSlow(HarnessError):
+    """the history makes progress but takes too long to be judged on this machine"""
+
+
 class Runaway(HarnessError):
     """the real scheduler starts one job again and again while the clock stands still"""
 
@@ -116,6 +120,7 @@ class SchedImpl:
         self.cb_fail: set[int] = set()
         self.exec_count: dict[int, int] = {}
         self.same_instant: list = [None, 0]
+        self.op_index = 0
 
     # ---- callables
     def _mk_callable(self, h: int, exec_fail: list[int]):
@@ -215,6 +220,7 @@ class SchedImpl:
             cbs: dict[tuple[str, int], CbObj] = {}
             blocks = []
             for li, line in enumerate(lines):
+                self.op_index = li
                 tok = line.split()
                 # `op!`: issued directly after the previous operation, before the loop gets to run anything
                 assert tok[0] in ('op', 'op!')
@@ -319,16 +325,26 @@ class SchedImpl:
         import time as _time
         t0 = _time.time()
         rss0 = resource.getrusage(resource.RUSAGE_SELF).ru_maxrss      # kB
-        budget = float(os.environ.get('VERIF_SCHED_WATCHDOG', '20'))
+        budget = float(os.environ.get('VERIF_SCHED_WATCHDOG', '30'))
+
+        last = [None, t0]
 
         def _alarm(*_a):
-            # polled once per second: the history takes milliseconds; a scheduler that spins (with or without the clock
-            # moving) is stopped after `budget` seconds or when it has allocated 1.5 GB, whichever comes first
+            # polled once per second. A history normally takes milliseconds (long recurring histories: seconds). The
+            # scheduler is stopped when it makes no progress for `budget` seconds (the virtual clock stands still, no
+            # callable is started, no operation completes), when it has allocated 1.5 GB, or - still making progress -
+            # after 15 minutes (reported as too slow to judge, not as a failure)
+            now = _time.time()
+            cur = (getattr(getattr(self, 'loop', None), 'vns', None), sum(self.exec_count.values()), self.op_index)
+            if cur != last[0]:
+                last[0], last[1] = cur, now
             grown = resource.getrusage(resource.RUSAGE_SELF).ru_maxrss - rss0
-            if _time.time() - t0 > budget:
+            if now - last[1] > budget:
                 raise HarnessError('the scheduler does not return (watchdog)')
             if grown > 1_500_000:
                 raise HarnessError('the scheduler does not return and keeps allocating memory (watchdog)')
+            if now - t0 > 900:
+                raise TooSlow('history not finished after 15 minutes')
         old = signal.signal(signal.SIGALRM, _alarm)
         signal.setitimer(signal.ITIMER_REAL, 1.0, 1.0)
         try:
